@@ -64,13 +64,14 @@ theorem unstoppable_hides_stop (c : Op) (env : Env) (tok : Bool)
   have := h.2 rfl
   simpa [UnKind.forwardsStop] using this
 
-/-- when_all: once the receiver's token is stopped, or once a child has failed, the when_all's own
+/-- when_all / when_any (for which EVERY first completion counts as a failure): once the receiver's token is stopped, or once a child has failed, the when_all's own
     source is stopped and BOTH children satisfy the invariant for a stopped token — in particular a
     still-running sibling leaf has been notified ("losers are stopped") -/
-theorem when_all_stops_children (a b : Op) (st : BinSt) (tok : Bool) (hph : st.ph = .running)
-    (h : StopInv (.bin .whenAll a b st) tok) (hcause : tok = true ∨ st.doe = true) :
+theorem when_all_stops_children (k : BinKind) (hk : k = .whenAll ∨ k = .whenAny) (a b : Op) (st : BinSt) (tok : Bool)
+    (hph : st.ph = .running)
+    (h : StopInv (.bin k a b st) tok) (hcause : tok = true ∨ st.doe = true) :
     st.src = true ∧ StopInv a true ∧ StopInv b true := by
-  rw [stopInv_wa] at h
+  rw [stopInv_wa k hk] at h
   obtain ⟨h1, h2, _, _, h5, h6⟩ := h.2 hph
   have hs : st.src = true := by rcases hcause with hc | hc; exact h1 hc; exact h2 hc
   rw [hs] at h5 h6
@@ -95,9 +96,9 @@ theorem stop_when_stops_other (a b : Op) (st : BinSt) (tok : Bool) (hph : st.ph 
     successor has not been started, and the environment it WILL be started with is already stopped
     whenever the token is — "children that have not been started yet start already-stopped" -/
 theorem successor_starts_stopped (k : BinKind) (a b : Op) (st : BinSt)
-    (h1 : k ≠ .whenAll) (h2 : k ≠ .stopWhen) (hph : st.ph = .running) (hsec : st.second = false)
+    (h1 : k ≠ .whenAll) (h2 : k ≠ .stopWhen) (h3 : k ≠ .whenAny) (hph : st.ph = .running) (hsec : st.second = false)
     (h : StopInv (.bin k a b st) true) : st.env.stopped = true ∧ AllIdle b := by
-  rw [stopInv_seq _ _ _ _ _ h1 h2] at h
+  rw [stopInv_seq _ _ _ _ _ h1 h2 h3] at h
   obtain ⟨h3, h4, _⟩ := h.2 hph
   exact ⟨h3 rfl, (h4 hsec).2⟩
 
